@@ -24,7 +24,7 @@ def record_oracles(spec, built, tag, seeds=(1, 2)):
     return orders, descs
 
 
-def drive_all(model, spec, tag, st, max_paths=None, sample=None, pools=(True, True)):
+def drive_all(model, spec, tag, st, max_paths=None, sample=None, pools=(True, True), collect=None):
     """returns (n_transitions_checked, disagreements[list of dict]); re-explores when a run reveals an order not recorded yet"""
     built = R.build(json.loads(json.dumps(spec)), tag)
     orders, descs = record_oracles(spec, built, tag)
@@ -36,6 +36,8 @@ def drive_all(model, spec, tag, st, max_paths=None, sample=None, pools=(True, Tr
         if paths is None:
             return 0, [dict(diffs=['explorer out of fuel'], spec=spec, actions=[])], 0
         total = len(paths)
+        if collect is not None:
+            collect['paths'] = paths
         if max_paths is not None and total > max_paths:
             return 0, [], total
         if sample is not None and total > sample[0]:
@@ -47,6 +49,9 @@ def drive_all(model, spec, tag, st, max_paths=None, sample=None, pools=(True, Tr
             obs = R.run_schedule(json.loads(json.dumps(spec)), R.Exact(p), tag=tag, built=built, drain=False)
             n += 1
             new_desc = {k: v for k, v in obs['descendants'].items() if k not in descs}
+            if collect is not None:       # every launch / successor order the real engine used on any path
+                collect.setdefault('orders', []).extend(obs['orders'])
+                collect.setdefault('descs', {}).update(obs['descendants'])
             if obs['missing']:
                 d = ['the implementation had no such outstanding completion (%d of the actions)' % obs['missing']]
             else:
